@@ -137,10 +137,15 @@ type adapter struct {
 	// cascaded a mined header up (in production the level's API backend
 	// would now broadcast it).
 	minedSink func(lvl int, b *types.WorkObject)
+	// holdRollup (dom-side adapter of the region): fault injection, see Net.HoldPendingEtxs
+	holdRollup func(p types.PendingEtxsRollup) bool
 }
 
 func (a *adapter) AddPendingEtxs(p types.PendingEtxs) error { return a.c.AddPendingEtxs(p) }
 func (a *adapter) AddPendingEtxsRollup(p types.PendingEtxsRollup) error {
+	if a.holdRollup != nil && a.holdRollup(p) {
+		return nil // delayed: delivered by Net.ReleaseHeld
+	}
 	return a.c.AddPendingEtxsRollup(p)
 }
 func (a *adapter) RequestDomToAppendOrFetch(hash common.Hash, entropy *big.Int, order int) {
@@ -218,9 +223,14 @@ type Net struct {
 	powCfgBase params.PowConfig
 	chainID    *big.Int
 
-	mu      sync.Mutex
-	Trace   []*Mined
-	minedBy [3]*types.WorkObject
+	mu    sync.Mutex
+	Trace []*Mined
+	// HoldPendingEtxs: level (1 region, 2 zone) whose pending-ETX messages to its dominant chain are held back
+	// until ReleaseHeld (0 = none)
+	HoldPendingEtxs int
+	held            []heldPetxs
+	heldRollups     []types.PendingEtxsRollup
+	minedBy         [3]*types.WorkObject
 	// Tips are the harness's notion of the best head per level (production: the
 	// hierarchical coordinator picks them); advanced by every successful append.
 	Tips [3]*types.WorkObject
@@ -363,10 +373,18 @@ func New(opts Options) (*Net, error) {
 		n.minedBy[lvl] = b
 		n.mu.Unlock()
 	}
-	n.Nodes[0].Core.SetSubInterface(&adapter{n.Nodes[1].Core, 1, sink}, RegionLoc)
-	n.Nodes[1].Core.SetDomInterface(&adapter{n.Nodes[0].Core, 0, sink})
-	n.Nodes[1].Core.SetSubInterface(&adapter{n.Nodes[2].Core, 2, sink}, ZoneLoc)
-	n.Nodes[2].Core.SetDomInterface(&adapter{n.Nodes[1].Core, 1, sink})
+	n.Nodes[0].Core.SetSubInterface(&adapter{c: n.Nodes[1].Core, lvl: 1, minedSink: sink}, RegionLoc)
+	n.Nodes[1].Core.SetDomInterface(&adapter{c: n.Nodes[0].Core, lvl: 0, minedSink: sink, holdRollup: func(p types.PendingEtxsRollup) bool {
+		n.mu.Lock()
+		defer n.mu.Unlock()
+		if n.HoldPendingEtxs != 1 {
+			return false
+		}
+		n.heldRollups = append(n.heldRollups, p)
+		return true
+	}})
+	n.Nodes[1].Core.SetSubInterface(&adapter{c: n.Nodes[2].Core, lvl: 2, minedSink: sink}, ZoneLoc)
+	n.Nodes[2].Core.SetDomInterface(&adapter{c: n.Nodes[1].Core, lvl: 1, minedSink: sink})
 	if !reopen {
 		// the prime's init() goroutine pushes the genesis pending header down
 		// once the sub interfaces are set; wait for the zone to have one
@@ -572,12 +590,67 @@ func (n *Net) InsertAt(lvl int, block *types.WorkObject) (types.Transactions, er
 	if lvl > common.PRIME_CTX {
 		p := types.PendingEtxs{Header: block.ConvertToPEtxView(), OutboundEtxs: etxs}
 		if p.IsValid(trie.NewStackTrie(nil)) {
+			n.mu.Lock()
+			hold := n.HoldPendingEtxs == lvl
+			if hold {
+				// fault injection: the message to the dominant chain is delayed until ReleaseHeld
+				n.held = append(n.held, heldPetxs{lvl, p})
+			}
+			n.mu.Unlock()
+			if hold {
+				return etxs, nil
+			}
 			if err := c.SendPendingEtxsToDom(p); err != nil {
 				return etxs, fmt.Errorf("SendPendingEtxsToDom: %w", err)
 			}
 		}
 	}
 	return etxs, nil
+}
+
+type heldPetxs struct {
+	lvl int
+	p   types.PendingEtxs
+}
+
+// ReleaseHeld delivers the delayed pending-ETX messages (see HoldPendingEtxs), oldest first.
+func (n *Net) ReleaseHeld() error {
+	n.mu.Lock()
+	held := n.held
+	n.held = nil
+	rollups := n.heldRollups
+	n.heldRollups = nil
+	n.mu.Unlock()
+	for _, p := range rollups {
+		if err := n.Nodes[0].Core.AddPendingEtxsRollup(p); err != nil {
+			return fmt.Errorf("AddPendingEtxsRollup (delayed): %w", err)
+		}
+	}
+	for _, h := range held {
+		if err := n.Nodes[h.lvl].Core.SendPendingEtxsToDom(h.p); err != nil {
+			return fmt.Errorf("SendPendingEtxsToDom (delayed): %w", err)
+		}
+	}
+	return nil
+}
+
+// Redeliver offers an already constructed mined block again (after an append
+// that failed because the dominant chain lacked data) and moves the tips on success.
+func (n *Net) Redeliver(m *Mined) error {
+	etxs, err := n.Deliver(m.Order, m.Blocks)
+	m.AppendErr = err
+	if err != nil {
+		return err
+	}
+	m.Etxs = etxs
+	for lvl := m.Order; lvl < 3; lvl++ {
+		if b := n.Block(lvl, m.Hash); b != nil {
+			n.Tips[lvl] = b
+		} else {
+			n.Tips[lvl] = m.Blocks[lvl]
+		}
+	}
+	return nil
 }
 
 // Deliver writes the per-level block views (as a gossiping peer would) and
